@@ -178,10 +178,60 @@ def parenTable : List Nat :=
 """
 
 
+XID_HEADER = """/-
+  GENERATED by tools/props/c11.py (pre_build) on every run of ./check C11 — do not edit.
+  How the REAL lexer (parser/src/lexer.rs: `unic_ucd_ident::{is_xid_start, is_xid_continue}`,
+  `unic_emoji_char::is_emoji_presentation`) classifies the non-ASCII scalar values, observed through the lexer
+  itself (harness pvh_c05 `clsdump`: `cx` is one name / `xc` is one name / `c` alone is a name although not a start),
+  as closed ranges.  Parameter tables of the reference tokenizer PV.C11.lex (lean/PV/C11/Lexer.lean).
+-/
+namespace PV.C11.Gen
+
+"""
+
+
+def _ranges(cps):
+    rs = []
+    for x in sorted(c for c in cps if c >= 128):
+        if rs and rs[-1][1] == x - 1:
+            rs[-1][1] = x
+        else:
+            rs.append([x, x])
+    return rs
+
+
+def xid_table_text(tables):
+    parts = [XID_HEADER]
+    for name, key in (("xidStartRanges", "start"), ("xidContinueRanges", "continue"), ("emojiRanges", "emoji")):
+        rs = _ranges(tables[key])
+        body = ",\n   ".join(", ".join(f"({a}, {b})" for a, b in rs[i:i + 8]) for i in range(0, len(rs), 8))
+        parts.append(f"def {name} : List (Nat × Nat) :=\n  [{body}]\n\n")
+    parts.append("end PV.C11.Gen\n")
+    return "".join(parts)
+
+
+def write_xid_table():
+    """extract the identifier / emoji classification of the real lexer into lean/PV/Gen/C11Xid.lean"""
+    import lexcommon
+    try:
+        tables = lexcommon.cls_tables()
+    except RuntimeError as e:
+        return ("extract XID / emoji classification from the real lexer", False, str(e)[-300:])
+    text = xid_table_text(tables)
+    path = os.path.join(core.LEAN, "PV", "Gen", "C11Xid.lean")
+    old = open(path).read() if os.path.exists(path) else None
+    if old != text:
+        with open(path, "w") as f:
+            f.write(text)
+    n = sum(len(_ranges(tables[k])) for k in ("start", "continue", "emoji"))
+    return ("extract XID / emoji classification from the real lexer (%d ranges)" % n, n > 1000, "")
+
+
 def pre_build(ctx):
     rc, out, hbin = core.cargo_build(HARNESS["bin"], HARNESS["features"])
     if rc != 0:
         return [("extract parenthesisation table (harness build)", False, out[-300:])]
+    xid_result = write_xid_table()
     reqs = []
     for sname, tmpl, kname, sample in table_pairs():
         w, wo = triple_sources(sname, tmpl, kname, sample)
@@ -206,7 +256,7 @@ def pre_build(ctx):
             f.write(text)
     ctx.extra["paren_table_entries"] = len(vals)
     return [("extract parenthesisation table from the real unparser (%d entries)" % len(vals), not bad,
-             "; ".join(bad[:5]))]
+             "; ".join(bad[:5])), xid_result]
 
 
 # ------------------------------------------------------------------------------------------------ CPython helpers
@@ -816,6 +866,31 @@ CORPUS += [
     "f'{x = !s:>{w}}'", "{**(a or b), 'k': 1, **(lambda: c)}", "{**a ** b, **(yield)}", "{**(a, b)}",
 ]
 
+# Directed requests for three places where the reference parser / tokenizer used to deviate from the code without
+# any stream noticing (found by the PROG builder): (a) EmptyExpression when a format spec / conversion follows an
+# empty field, (b) the field text is lexed INSIDE the parentheses string.rs wraps it in (line breaks, `#` comments),
+# (c) non-ASCII characters outside string literals are classified by the XID / emoji tables.  Both sides must answer
+# identically, `parse-error` included (this stream is not filtered through CPython; the oracle ignores rejected inputs).
+FIDELITY_DIRECTED = [
+    # (a)
+    "f'{:x}'", "f'{!r}'", "f'{=:x}'", "f'{=}'", "f'{ :x}'", "f'{ = :x}'", "f'{}'", "f'{ }'", "f'{!r:x}'", "f'{ !r}'",
+    "f'{\u3000}'", "f'{\u3000:x}'", "f'{\xa0!r}'", "f'{x:}'", "f'{x=:x}'", "f'{x!r:}'", "f'{x = }'", "f'{x = :}'",
+    "f'{x:{:y}}'", "f'{x:{}}'", "f'{x:{=}}'", "f'{x:{y:{z}}}'", "f'a{:>{w}}'", "f'{x}{:x}'", "f'{{}}{:x}'",
+    # (b)
+    "f'''{a\n}'''", "f'''{\na}'''", "f'''{a\n+b}'''", "f'''{a #c\n}'''", "f'{#}'", "f'{a#}'", "f'{a#b}'",
+    "f'''{#\n}'''", "f'''{a #c\n:x}'''", "f'''{a\n=}'''", "f'''{a\n!r}'''", "f'''{\n}'''", "f'''{\n:x}'''",
+    "f'{\"#\"}'", "f'''{'''#'''}'''", "f'{(a,#)}'", "f'''{(a,#\n)}'''", "f'''{a,#\n}'''", "f'''{[a,\nb]}'''",
+    "f'''{a\nb}'''", "f'''{a if b\nelse c}'''", "f'''{x:{a\n}}'''", "f'''{x:{#\n}}'''", "f'''{lambda:\n1}'''",
+    "f'''{(lambda:\n1)}'''", "f'{a;b}'", "f'{a\\\n}'", "f\"\"\"{'a'\n'b'}\"\"\"", "f'''{a\n\n}'''", "f'''{ \n a \n }'''",
+    "(a\n)", "a\n", "a #c", "a\n\n", "(a #c\n)", "[a,\n#c\nb]",
+    # (c)
+    "\U0001f600", "\U0001f600x", "x\U0001f600", "f'{\U0001f600}'", "f'{\U0001f600x}'", "f'{x\U0001f600}'", "f'{\U0001f600!r:>3}'",
+    "\U0001f600 + \U0001f600", "\U0001f600.a", "\U0001f600(\U0001f600)", "a \U0001f600", "\U0001f600\U0001f600", "lambda \U0001f600: \U0001f600",
+    "x\xb7y", "\xb7y", "\xb7", "a + \xe9", "\xe9t\xe9", "f'{\xe9t\xe9}'", "a \u20ac", "\u20ac", "f'{\u20ac}'", "\u65e5\u672c", "f'{\u65e5\u672c}'",
+    "x\u0301", "\u0301x", "a\u2118", "\u2118", "x\u203f", "\xaa", "\xa0", "a\xa0b", "a \xa0", "\u3000a", "x\u200b", "\ufeffa",
+    "\u00b2", "x\u00b2", "\u2460", "\u0660", "x\u0660", "\U0001d7ce", "x\U0001d7ce", "\u231a", "\u00a9", "\u2614x",
+]
+
 FINDING_PROBES = {
     "fstring-escape-inside-replacement-field": ["f'''{d['a']}\"'''", "f'''{f\"{f'{x}'}\"}'''",
                                                 "f'''{\"\"\"a\"b\"\"\"}'''",
@@ -1349,6 +1424,11 @@ def streams(ctx):
     out.append(Stream("corpus", [req(s) for s in CORPUS if py_tree(s) is not None and not finding_shapes(py_tree(s))],
                       kind="corpus", nontrivial=_nontrivial,
                       note="hand-written regression inputs: every node kind, literal kind and precedence corner"))
+    out.append(Stream("model-fidelity-directed", [req(s) for s in FIDELITY_DIRECTED], kind="corpus",
+                      nontrivial=lambda r: True,
+                      note="empty f-string fields with spec / conversion, line breaks and comments inside replacement "
+                           "fields, non-ASCII identifier / emoji classification: accepted and rejected inputs alike, "
+                           "both sides must answer identically"))
     probes = [req(s) for k in FINDING_PROBES for s in FINDING_PROBES[k]]
     out.append(Stream("known-finding-probes", probes, kind="corpus", nontrivial=_nontrivial,
                       note="one deterministic probe per listed known finding (kept out of all other streams)"))
